@@ -133,9 +133,16 @@ def resolveCollisions (scope : Scope) : List VarOut → Scope × List VarOut
     let (s', rest) := resolveCollisions (scope.addName n) vs
     (s', { v with name := n } :: rest)
 
-/-- one method: fresh scope from the registry's qualifiers, parameters then results -/
-def methodData (reg : Registry) (m : MethodIn) : Registry × (Scope × List VarOut × Nat) :=
-  let st0 : VarState := ⟨reg, reg.newScope, []⟩
+/-- `template_funcs.Exported` on a name -/
+def exportedName (s : String) : String :=
+  match Mockery.Tmpl.exported Mockery.Tmpl.tableOps Mockery.Generated.golintInitialismsB s.toUTF8.toList with
+  | some b => (String.fromUTF8? ⟨b.toArray⟩).getD s
+  | none => s
+
+/-- one method: fresh scope from the registry's qualifiers plus the (exported) names of the mock's type
+parameters – they are declared in every method through the receiver –, parameters then results -/
+def methodData (reg : Registry) (tparams : List String) (m : MethodIn) : Registry × (Scope × List VarOut × Nat) :=
+  let st0 : VarState := ⟨reg, tparams.foldl (fun s n => s.addName (exportedName n)) reg.newScope, []⟩
   let np := m.params.length
   let st1 := (m.params.zip (List.range np)).foldl
     (fun st (p : VarIn × Nat) => addVar st p.1 (m.variadic && p.2 + 1 == np)) st0
@@ -152,7 +159,7 @@ def finishMethod (name : String) (x : Scope × List VarOut × Nat) : MethodOut :
 def ifaceData (reg : Registry) (i : IfaceIn) : Registry × IfaceOut :=
   let (reg1, raw) := i.methods.foldl
     (fun (acc : Registry × List (String × (Scope × List VarOut × Nat))) m =>
-      let (r', d) := methodData acc.1 m
+      let (r', d) := methodData acc.1 (i.typeParams.map (·.1)) m
       (r', acc.2 ++ [(m.name, d)])) (reg, [])
   let methods := raw.map (fun (n, d) => finishMethod n d)
   let stT : VarState := ⟨reg1, reg1.newScope, []⟩
